@@ -188,7 +188,7 @@ SOURCES = [scopesuite.scope_tree, scopesuite.valid_scenario, cond_family, revert
 
 def run(tier, seed, drv):
     return msuite.standard_run(PID, 'C08', TAGS, tier, seed, drv, SOURCES, nontrivial=nontrivial, rule=RULE,
-                               n_quick=200, n_thorough=6000, probes=[('F8', F8_PROBE), ('F13', F13_PROBE)])
+                               n_quick=200, n_thorough=6000, probes=[('F8', F8_PROBE), ('F13', F13_PROBE)], optimized=100 if tier == 'quick' else 1000)
 
 
 def replay(data, drv):
